@@ -54,15 +54,25 @@ def execute(c):
 def calendar(rng, ndays, kind):
     """daily labels from the real calendar: dekads, pentads (6 per month), months"""
     start = dt.date(rng.randint(1990, 2030), rng.randint(1, 12), rng.choice([1, 1, 11, 21, 6]))
+    if kind in ("dekad_of_year", "month_of_year"):      # start late in the year so that the labels wrap; at most ~300 days so no label repeats
+        start = dt.date(rng.randint(1990, 2030), rng.choice([10, 11, 12]), rng.choice([1, 11, 21]))
     labs = []
     for i in range(ndays):
         d = start + dt.timedelta(days=i)
+        if kind == "dekad_of_year":      # 1..36, wrapping at new year: distinct and contiguous, but not increasing
+            labs.append((d.month - 1) * 3 + min(2, (d.day - 1) // 10) + 1)
+            continue
+        if kind == "month_of_year":
+            labs.append(d.month)
+            continue
         if kind == "dekad":
             labs.append(d.year * 36 + (d.month - 1) * 3 + min(2, (d.day - 1) // 10))
         elif kind == "pentad":
             labs.append(d.year * 72 + (d.month - 1) * 6 + min(5, (d.day - 1) // 5))
         else:
             labs.append(d.year * 12 + d.month - 1)
+    if kind in ("dekad_of_year", "month_of_year"):
+        return labs
     base = labs[0]
     return [v - base + 1 for v in labs]
 
@@ -98,7 +108,7 @@ def gen_cases(tier, seed):
         nobs = rng.randint(5, 12 if quick else 40)
         spacing = rng.choice([5, 8, 10, 16, 0])
         while True:
-            tmpl, labels = build(nobs, spacing, rng.choice(["dekad", "pentad", "month"]), rng.choice([0, 0, 2, 7]), rng.choice([0, 0, 3, 9]))
+            tmpl, labels = build(nobs, spacing, rng.choice(["dekad", "pentad", "month", "dekad_of_year", "month_of_year"]), rng.choice([0, 0, 2, 7]), rng.choice([0, 0, 3, 9]))
             if len(tmpl) <= (100 if quick else 250):
                 break
             nobs = max(5, nobs - 3)
@@ -117,9 +127,9 @@ def gen_cases(tier, seed):
     for _ in range(80 if quick else 600):
         nobs = rng.randint(5, 60 if quick else 400)
         spacing = rng.choice([5, 8, 10, 16, 0])
-        tmpl, labels = build(nobs, spacing, rng.choice(["dekad", "pentad", "month"]), rng.choice([0, 0, 4]), rng.choice([0, 0, 6]))
-        if len(tmpl) > 4000:
-            continue
+        tmpl, labels = build(nobs, spacing, rng.choice(["dekad", "pentad", "month", "dekad_of_year"]), rng.choice([0, 0, 4]), rng.choice([0, 0, 6]))
+        if len(tmpl) > 4000 or len(set(labels)) != 1 + sum(1 for a, b in zip(labels, labels[1:]) if a != b):
+            continue       # each label value must form one contiguous run (the kernel's contract)
         days = [j + 1 for j, m in enumerate(tmpl) if m]
         if rng.random() < 0.4:
             a, b = rng.randint(-10000, 10000), 0
